@@ -8,4 +8,6 @@ for d in checks/*/; do
   id=$(basename "$d")
   go build -tags verif -o "bin/$id" "./checks/$id" || rc=1
 done
+# warm the race-detector build used by C10's free-running race pass
+go build -race -tags verif -o bin/c10.race ./checks/c10 || true
 exit $rc
